@@ -129,6 +129,52 @@ func recC12(c *ctx) {
 			}
 		}
 	}
+	// ---- length sweep: every context length 0..80 (message length running along, 0..160) through all transcript sources
+	// in turn: the signature verifies on its own transcript and on none that differs in the last context byte, the last
+	// message byte, or the split between context and message; signing with an entropy source that breaks must fail
+	{
+		skp, _ := sr25519.GenerateKeyPair(bytes.NewReader(r.Bytes(4096)))
+		spk := skp.PublicKey()
+		for cl := 0; cl <= 80; cl++ {
+			ctxb, msg := r.Bytes(cl), r.Bytes((cl*2)%161)
+			e := vt.Ev{"op": "srsweep", "ctxlen": cl, "msglen": len(msg), "tkind": cl % 2, "same": false, "ctxlast": false, "msglast": false, "split": false, "failed": false}
+			if !c.try("srsweep", e, func() {
+				mk := func(cb, m []byte) *sr25519.SigningTranscript {
+					sc := sr25519.NewSigningContext(cb)
+					if cl%2 == 0 {
+						return sc.NewTranscriptBytes(m)
+					}
+					h := sha512.New()
+					h.Write(m)
+					return sc.NewTranscriptHash(h)
+				}
+				_, ferr := skp.Sign(r.FailingEntropy(r.Bytes(64), r.Intn(32)), mk(ctxb, msg))
+				e["failed"] = ferr != nil
+				sig, err := skp.Sign(r.Entropy(r.Bytes(64)), mk(ctxb, msg))
+				if err != nil {
+					e["same"] = false
+					return
+				}
+				e["same"] = spk.Verify(mk(ctxb, msg), sig)
+				e["ctxlast"], e["msglast"], e["split"] = false, false, false
+				if cl > 0 {
+					c2 := append([]byte(nil), ctxb...)
+					c2[cl-1] ^= 1
+					e["ctxlast"] = spk.Verify(mk(c2, msg), sig)
+					// the last context byte moved to the front of the message: same concatenation, different split
+					e["split"] = spk.Verify(mk(ctxb[:cl-1], append([]byte{ctxb[cl-1]}, msg...)), sig)
+				}
+				if len(msg) > 0 {
+					m2 := append([]byte(nil), msg...)
+					m2[len(m2)-1] ^= 1
+					e["msglast"] = spk.Verify(mk(ctxb, m2), sig)
+				}
+			}) {
+				continue
+			}
+			emit(e)
+		}
+	}
 	// ---- generators: GenerateMiniSecretKey = the 32 bytes read; GenerateSecretKey = wide-reduced 64 bytes || 32 nonce bytes
 	for i := 0; i < 2; i++ {
 		ent := r.Bytes(96)
